@@ -55,6 +55,10 @@ HANDWRITTEN = [
     ('enum-incomplete-arith', 'enum e; enum e *p; int f(void) { return *p + 1; }\n'), ('enum-incomplete-switch', 'enum e; enum e *p; int f(void) { switch (*p) { default: return 0; } }\n'),
     ('enum-incomplete-cond', 'enum e; enum e *p; int f(void) { return *p ? 1 : 2; }\n'), ('enum-incomplete-cast', 'enum e; int f(void) { return (enum e)1 == 1; }\n'),
     ('enum-incomplete-call', 'enum e; enum e g(void); int h(int, ...); int f(void) { return h(1, g()); }\n'), ('enum-fixed-forward', 'enum e : short; enum e *p; int f(void) { return *p + !*p; }\n'),
+    ('funtype-compound-literal', 'typedef int F(void); void g(void) { (F){ 1 }; }\n'), ('funtype-compound-sizeof', 'typedef int F(void); int h(void) { return sizeof(F){ 1 }; }\n'),
+    ('typedef-function-definition', 'typedef int F(void); F f { return 0; }\n'), ('qualified-function-parameter', 'typedef void F(void); void g(const F f);\n'),
+    ('zero-length-array-init', 'int a[0] = { 1 };\n'), ('zero-length-member-init', 'struct s { int a[0]; } x = { 1 };\n'), ('zero-length-auto', 'void g(void *); void f(void) { int b[0]; int c[0] = { }; g(b); g(c); }\n'),
+    ('zero-length-auto-init', 'void f(void) { int a[0] = { 1 }; }\n'), ('string-patch-nonconstant', 'int g; struct { char s[4]; } x = { .s = "abc", .s[1] = (char)&g };\n'),
     ('rem-overflow', 'long z = (-0x7fffffffffffffff-1) % -1;\n'), ('rem-overflow-case', 'int f(long v){ switch (v) { case (-0x7fffffffffffffffLL-1) % -1: return 1; } return 0; }\n'),
     ('rem-overflow-int', 'int z = (-0x7fffffff-1) % -1; int w = (-0x7fffffff-1) / -1; enum { E = (-0x7fffffffffffffffLL-1) % -1LL };\n'),
     ('backslash-nul-string', b'char *s = "a\\\x00b";\n'), ('backslash-nul-char', b"int c = '\\\x00';\n"), ('backslash-nul-E', b'#define S(x) #x\nchar *s = S("\\\x00");\n'),
@@ -95,6 +99,9 @@ def deep_inputs(thorough):
     out = [
         ('deep-parens', 'int x = ' + '(' * n + '1' + ')' * n + ';\n'),
         ('deep-blocks', 'void f(void) ' + '{' * n + '}' * n + '\n'),
+        # known finding: the recursive-descent parser has no depth limit; 20 000 levels exhaust the 8 MB stack in the default (-O0)
+        # build of /repo, 40 000 in the -O1 build the checks use (80 KB of input)
+        ('deep-parens-60000', 'int x = ' + '(' * 60000 + '1' + ')' * 60000 + ';\n'),
         ('deep-unary', 'int x = ' + '-' * n + '1;\n'),
         ('deep-deref', 'void f(int ' + '*' * 2000 + 'p) { ' + '*' * 2000 + 'p; }\n'),
         ('deep-array-dims', 'int a' + '[1]' * 3000 + ';\n'),
@@ -324,6 +331,8 @@ def run(ctx):
             nontrivial.add(hashlib.md5(data).hexdigest() + end)
             if sig:
                 key = sig if not sig.startswith('timeout') else 'timeout:' + kind
+                if kind.startswith('deep:') and sig == 'signal:11':
+                    key = 'stack-overflow:' + kind.split(':', 1)[1]       # one key per construct and depth: a shallower overflow is a new finding
                 if key not in best or len(data) < len(best[key][0]):
                     best[key] = (data, args, kind, rc)
             if len(samples) < 4 and kind == 'mutant':
